@@ -126,6 +126,22 @@ def gen_cases(rng, tier):
             if len({repr(s_[1]) for s_ in seq}) == 1:
                 seq.append(mk(cx[0] if seq[0][1] == cx[1] else cx[1]))
             case["records"] = recs[:r.randint(0, 1)] + seq
+        elif w < 13:
+            # the first record of a type cannot be serialised (the producer catches the error and carries on), then good
+            # records of that type follow: the stream still holds each definition before its first record
+            PF = ["t/pf", [["string", "s"], ["varint", "n"], ["dictlist", "d"]]]
+            good = [["rec", PF, [V.S("ok%d" % i), V.I(i), ["list", []]], {"_generated": V.gen_dt_spec(r, tzkinds=("utc",), fold_ok=False)}]
+                    for i in range(r.randint(1, 3))]
+            case["records"] = recs[:r.randint(0, 1)] + good
+            case["prefail"] = {"at": len(case["records"]) - len(good), "how": r.choice(["surrogate", "unpackable"])}
+        elif w < 15:
+            # a grouped record written, one of its MEMBERS edited directly, the group written again: the second frame holds
+            # the edited values
+            fa, fb = [["string", "x"], ["varint", "n"]], [["string", "y"]]
+            mk2 = lambda d, vals: ["rec", d, vals, {"_generated": V.gen_dt_spec(r, tzkinds=("utc",), fold_ok=False)}]   # noqa: E731
+            g = ["grouped", "grp/rw", [mk2(["g/a", fa], [V.S("pending"), V.I(0)]), mk2(["g/b", fb], [V.S("y0")])]]
+            case["records"] = recs[:r.randint(0, 1)] + [g]
+            case["edit"] = [len(case["records"]) - 1, r.choice([[0, "x", V.S("done")], [0, "n", V.I(3)], [1, "y", V.S("y1")]])]
         cases.append(case)
     r = rng.fork("ref2impl")
     for _ in range(n):
@@ -440,8 +456,22 @@ def run_real(case):
             if case.get("ignore"):
                 _B.set_ignored_fields_for_comparison(list(case["ignore"]))
             try:
-                for r in recs:
+                pf = case.get("prefail")
+                for i_, r in enumerate(recs):
+                    if pf and i_ == pf["at"]:
+                        bad = r._desc(s="\ud800", n=1, d=[]) if pf["how"] == "surrogate" else r._desc(s="x", n=1, d=[{"k": {1, 2}}])
+                        try:
+                            w.write(bad)
+                        except Exception:          # noqa: BLE001
+                            pass
                     w.write(r)
+                edited_rv = None
+                if case.get("edit"):
+                    gi, (mi, fname, vspec) = case["edit"]
+                    first_rv = W.to_rv(recs[gi])
+                    setattr(recs[gi].records[mi], fname, V.build(vspec))
+                    w.write(recs[gi])
+                    edited_rv = W.to_rv(recs[gi])
                 w.flush()
             finally:
                 _B.set_ignored_fields_for_comparison(_saved)
@@ -453,8 +483,13 @@ def run_real(case):
             # what the stream must hold is derived from records that had every element from the start
             eq = [V.build(V.merge_append(s)) if s[0] == "rec" and len(s) > 3 and (s[3] or {}).get("_append") else r
                   for s, r in zip(case["records"], recs)]
-            return {"stream": data.hex(), "expected_rvs": [W.to_rv(r) for r in eq], "hashes": hashes,
-                    "walk": walk_stream(data), "typed": _typed_fields(eq), "held": decode_independent(data)}
+            exp = [W.to_rv(r) for r in eq]
+            if edited_rv is not None:
+                exp[case["edit"][0]] = first_rv          # as it was when it was written the first time
+                exp.append(edited_rv)
+            return {"stream": data.hex(), "expected_rvs": exp, "hashes": hashes,
+                    "walk": walk_stream(data), "typed": _typed_fields(eq) if edited_rv is None else [],
+                    "held": decode_independent(data), "n_written": len(exp)}
         if k == "ref2impl":
             data = build_ref_stream(case)
             got, err = _read(data)
@@ -524,8 +559,9 @@ def oracle(case, obs):
         if held is None:
             return "implementation-written stream cannot be followed by an independent msgpack decoder"
         tops = [h for h in held]
-        if len(tops) != len(case["records"]):
-            return f"{len(case['records'])} records written, an independent decoder finds {len(tops)} record frames"
+        nw = obs.get("n_written", len(case["records"]))
+        if len(tops) != nw:
+            return f"{nw} records written, an independent decoder finds {len(tops)} record frames"
         # the definition in force for each record frame (the one most recently written for its identifier) is the
         # definition of the record that was written
         for i, (spec, h) in enumerate(zip(case["records"], tops)):
@@ -536,6 +572,13 @@ def oracle(case, obs):
                 if gd is None or uniq([list(f) for f in gd]) != uniq([list(f) for f in wd]) and [list(f) for f in gd] != [list(f) for f in wd]:
                     return (f"record {i}: the definition in force for its identifier when its frame is reached declares "
                             f"{gd}, the record was written with {wd}")
+        if case.get("edit") and tops and tops[-1][0] == "G":
+            want_members = [m[2] for m in obs["expected_rvs"][-1][2]]
+            for mi_, (wv, hv) in enumerate(zip(want_members, tops[-1][1])):
+                for sl_, (a_, b_) in enumerate(zip(wv, hv)):
+                    if b_[0] != "EXT" and a_[0] in ("I", "S", "N", "B") and a_ != b_:
+                        return (f"a grouped record written again after member {mi_} was edited: slot {sl_} of that member holds "
+                                f"{json.dumps(b_)[:80]} in the second frame, the value at the time of writing is {json.dumps(a_)[:80]}")
         for i, mi, slot, kind, tv in obs.get("typed", []):
             if tv == ["?"]:
                 continue
